@@ -140,7 +140,8 @@ func NewFieldBuildContext(m MessageBuildContext, field *FieldDescriptorProtoExt,
 // NewMapValueFieldBuildContext creates FieldBuildContext for MapValueField
 func NewMapValueFieldBuildContext(c *FieldBuildContext, field *FieldDescriptorProtoExt, index int, typ string) (*FieldBuildContext, error) {
 	// We've gen.GoType always returns *type here, have to override
-	i := strings.LastIndex(typ, "]")
+	// typ is map[string]<value type>: the value type starts after the first "]" (it may itself be a slice, e.g. []byte)
+	i := strings.Index(typ, "]")
 	t := typ[i+1:]
 
 	return &FieldBuildContext{
